@@ -253,7 +253,7 @@ def check_update_nested(ctx):
     for p in P.paths_of(fn):
         final = [i for i, e in enumerate(p.ev) if e[0] == "stmt" and isinstance(e[1], ast.Assign)
                  and any(A.src(t) == "d[key]" for t in e[1].targets)]
-        if p.end == "raise":
+        if p.end in ("raise", "loop"):     # "loop": cut at a back edge of `while True` -- not an exit of the function
             continue
         ctx.check("C07-d", len(final) == 1 and A.src(p.ev[final[0]][1].value) == "other", fn,
                   "update_nested does not finish by `d[key] = other` on path [%s]" % p.describe(),
